@@ -256,6 +256,8 @@ def main(mod, argv):
             theorems = list(mod.THEOREMS)
             aud, audlog = B.audit(theorems, pid, getattr(mod, 'LEAN_MODULES', ['NixModel.Props.' + pid])) if not a.replay else ({}, '')
             hyg = B.hygiene() if not a.replay else []
+            # thorough: the compiled proofs of this property are re-checked by leanchecker, independently of `lean`
+            lc_bad, lc_log = (B.leancheck(getattr(mod, 'LEAN_MODULES', ['NixModel.Props.' + pid])) if (tier == 'thorough' and not a.replay) else ([], ''))
             ctx['build_s'] = time.time() - tb
     except B.BuildError as e:
         # the tree does not build, or the harness no longer compiles against it
@@ -285,6 +287,10 @@ def main(mod, argv):
                              '\n'.join('%s: %s' % (t, aud.get(t)) for t in undischarged) + '\n' + audlog[-4000:])
         if hyg:
             proof_problem = ('forbidden construct in Lean sources', '\n'.join(hyg))
+        if lc_bad:
+            proof_problem = ('leanchecker rejects compiled modules: ' + ', '.join(lc_bad), lc_log)
+        if tier == 'thorough':
+            notes.append('leanchecker re-checked: ' + ', '.join(getattr(mod, 'LEAN_MODULES', ['NixModel.Props.' + pid])))
 
         rng = random.Random(a.seed * 1000003 + 17)
         cases = []
